@@ -127,6 +127,13 @@ def yaml_of(fs, scope, libname):
          "options": {"debug": True, "F_force_wrapper": True, "wrap_python": True, "wrap_lua": True}}
     if scope == "ns":
         y["declarations"] = [{"decl": "namespace outer", "declarations": decls}]
+    elif scope == "ns2":
+        y["declarations"] = [{"decl": "namespace outer", "declarations": [{"decl": "namespace inner", "declarations": decls}]}]
+    elif scope == "class":
+        # methods of a class: C names carry the class, Fortran has type-bound generics
+        y["options"]["wrap_python"] = False
+        y["options"]["wrap_lua"] = False
+        y["declarations"] = [{"decl": "class Cone", "declarations": decls}]
     else:
         y["declarations"] = decls
     return y
@@ -222,16 +229,30 @@ def read_tables(outdir, libname):
         if fn.startswith("wrapf") and fn.endswith(".f"):
             lines = join_cont(open(p).read().split("\n"), True)
             iface = {}
+            tbind = {}
             k = 0
             in_contains = False
+            in_type = False
             while k < len(lines):
                 l = lines[k].strip()
                 low = l.lower()
-                if low == "contains":
+                if re.match(r"type\s*(,[^:]*)?(::)?\s*\w+\s*$", low) and not low.startswith("type("):
+                    in_type = True
+                elif re.match(r"end\s+type", low):
+                    in_type = False
+                if low == "contains" and not in_type:
                     in_contains = True
                 m = re.match(r"(?:.*\s)?(function|subroutine)\s+(\w+)\s*\((.*?)\).*bind\(c,\s*name=\"(\w+)\"\)", l, re.I)
                 if m and not in_contains:
                     iface[m.group(2).lower()] = m.group(4)
+                # type-bound: procedure :: binding => specific ; generic :: name => binding, binding
+                m = re.match(r"procedure\s*(?:,\s*\w+(?:\(\w*\))?\s*)*::\s*(\w+)\s*=>\s*(\w+)", l, re.I)
+                if m and not in_contains:
+                    tbind[m.group(1).lower()] = m.group(2).lower()
+                m = re.match(r"generic\s*::\s*(\w+)\s*=>\s*(.*)$", l, re.I)
+                if m and not in_contains:
+                    generics.append({"gname": m.group(1).lower(),
+                                     "members": [tbind.get(x.strip().lower(), x.strip().lower()) for x in m.group(2).split(",") if x.strip()]})
                 m = re.match(r"interface\s+(\w+)", l, re.I)
                 if m and not in_contains:
                     g = {"gname": m.group(1).lower(), "members": []}
@@ -283,7 +304,21 @@ def un_camel_ref(s):
 
 def build_trace(fs, scope, libname, outdir):
     crows, frows, generics, py, lua = read_tables(outdir, libname)
-    cprefix = libname[:3].upper() + "_" + ("outer_" if scope == "ns" else "")
+    cprefix = libname[:3].upper() + "_" + {"ns": "outer_", "ns2": "outer_inner_", "class": "Cone_"}.get(scope, "")
+    fprefix = "cone_" if scope == "class" else ""
+    if scope == "class":
+        # the object a method is called on is not part of the C++ signature
+        for r in crows:
+            if r["params"] and "Cone" in r["params"][0]:
+                r["params"] = r["params"][1:]
+        for r in frows:
+            if r["params"] and ("cone" in r["params"][0] or r["params"][0] == "?"):
+                r["params"] = r["params"][1:]
+        # the class's own helpers (documented F_name_instance_get/set, F_name_associated, operators) are not
+        # wrappers of declared functions
+        helpers = {"cone_get_instance", "cone_set_instance", "cone_associated", "cone_eq", "cone_ne"}
+        frows = [r for r in frows if r["fname"] not in helpers]
+        generics = [g for g in generics if g["gname"] != "operator"]
     cname2name = {r["cname"]: r["name"] for r in crows}
     for r in crows:
         r["name_cp"] = enc(r["name"])
@@ -294,7 +329,7 @@ def build_trace(fs, scope, libname, outdir):
         r["name_cp"] = enc(r["name"])
         r["fname_cp"] = enc(r["fname"])
     return {"funcs": fs, "crows": crows, "frows": frows, "generics": generics, "py": py, "lua": lua,
-            "cprefix": enc(cprefix), "fprefix": enc("")}
+            "cprefix": enc(cprefix), "fprefix": enc(fprefix)}
 
 
 def one(job):
@@ -352,7 +387,7 @@ def run(tier):
         jobs = []
         with common.scratch("c08-") as base:
             for i, fs in enumerate(scopes):
-                jobs.append((fs, "ns" if i % 3 == 2 else "lib", i, base))
+                jobs.append((fs, ["lib", "class", "ns", "lib", "ns2", "ns"][i % 6], i, base))
             rjobs = [(decls, names, "ns" if k % 2 else "lib", 100000 + k, base) for k, (decls, names) in enumerate(rank_generic_scopes())]
             with cf.ThreadPoolExecutor(common.NCPU) as ex:
                 results = list(ex.map(one, jobs))
